@@ -276,6 +276,12 @@ func c28Mutate(base *c28Wire, presigned bool, pieces []c30Piece, emit c28Emit) {
 		with(kind+".value-outer-space", "", func(w *c28Wire) { w.Hdrs[i][1] = "  " + val + "  " })
 		if j := strings.Index(val, " "); j >= 0 && lname != "authorization" {
 			with(kind+".value-double-inner-space", "", func(w *c28Wire) { w.Hdrs[i][1] = val[:j] + " " + val[j:] })
+			// other white space is not a space: HTAB, VT, FF, NBSP, NEL in place of / next to the signed space
+			for _, ws := range []struct{ name, s string }{{"tab", "\t"}, {"vt", "\v"}, {"ff", "\f"}, {"nbsp", "\u00a0"}, {"nel", "\u0085"}} {
+				ws := ws
+				with(kind+".value-inner-space-as-"+ws.name, "", func(w *c28Wire) { w.Hdrs[i][1] = val[:j] + ws.s + val[j+1:] })
+				with(kind+".value-inner-space-plus-"+ws.name, "", func(w *c28Wire) { w.Hdrs[i][1] = val[:j+1] + ws.s + val[j+1:] })
+			}
 		}
 	}
 
